@@ -314,6 +314,9 @@ class Processor:
 
         if isinstance(obj, dict) and att in obj:
             obj[att] = new_value
+        elif not self.has(key):
+            # Do not silently create a new attribute (e.g. with a misspelt key)
+            raise AttributeError(f"Cannot set {key!r}: this parameter does not exist !")
         else:
             setattr(obj, att, new_value)
 
